@@ -2,6 +2,7 @@ import TexelVerif.Drv.TT
 import TexelVerif.Drv.Chess
 import TexelVerif.Drv.Uci
 import TexelVerif.Drv.Mate
+import TexelVerif.Drv.TB13
 import TexelVerif.Drv.NN
 import TexelVerif.Drv.Time
 import TexelVerif.Drv.Book
@@ -28,6 +29,7 @@ def dispatch (st : DrvState) (line : String) : DrvState × String :=
   | "chess" :: args => (st, Drv.Chess.step args)
   | "uci" :: args => (st, Drv.Uci.step args)
   | "mate" :: args => (st, Drv.Mate.step args)
+  | "tb13" :: args => (st, Drv.TB13.step args)
   | "nn" :: args => let (t, o) := Drv.NN.step st.nn args; ({ st with nn := t }, o)
   | "tm" :: args => (st, Drv.Time.step args)
   | "pgbook" :: args => let (b, o) := Drv.Book.step st.pgbook args; ({ st with pgbook := b }, o)
